@@ -95,13 +95,16 @@ def variant(b, i):
     return b
 
 
-def directed(names):
+def directed(names, tier='quick'):
     """step 2b: directed scripts (regression schedules of earlier findings and of seeded changes)"""
     behs = []
     for n in names:
         for path in sorted(glob.glob(os.path.join(VERIF, 'scripts', n))):
             for i, b in enumerate(json.load(open(path))):
                 b = dict(b)
+                if tier == 'thorough':
+                    # real-time holds (an origin silent for seconds) are three times as long
+                    b['steps'] = [dict(st, ms=st['ms'] * 3) if st.get('a') == 'Hold' else st for st in b['steps']]
                 b['id'] = 'script:' + os.path.basename(path) + ':' + str(b.get('id', ''))
                 if 'cover' in os.path.basename(path):
                     b = variant(b, i)
@@ -196,7 +199,7 @@ def run(pid, tier, spec, replay_file=None, extra=None):
             behs = behs['behaviours']
     else:
         model_check(spec.get('mc', []), tier, res)
-        behs = directed(spec.get('scripts', [])) + generate(spec.get('gens', []), tier, res)
+        behs = directed(spec.get('scripts', []), tier) + generate(spec.get('gens', []), tier, res)
     outs = replay(harness, behs)
     invs = spec['invs']
     violations = []
